@@ -31,7 +31,7 @@ func Pool(a Args) {
 	exe, err := os.Executable()
 	must(err)
 	args := []string{"pool-child", "-out", a.Out, "-seed", fmt.Sprint(a.Seed), "-n", fmt.Sprint(a.N), "-len", fmt.Sprint(a.Len),
-		"-mode", a.Mode, "-dir", a.Dir, "-workers", fmt.Sprint(a.Workers), "-sizes", a.Sizes}
+		"-mode", a.Mode, "-dir", a.Dir, "-workers", fmt.Sprint(a.Workers), "-sizes", a.Sizes, "-dribble", fmt.Sprint(a.Dribble)}
 	cmd := exec.Command(exe, args...)
 	out, err := cmd.CombinedOutput()
 	exit := 0
@@ -67,6 +67,13 @@ func poolChild(a Args) {
 	must(st.ListenUnix(sock))
 	opts := batched.Opts{BatchSize: uint32(a.N / 100000), BatchDelayMicros: uint32(a.N % 100000), EvaluationIntervalSec: 1}
 	callers := a.Workers
+	variant := ""
+	if a.Sizes == "big" {
+		variant += "/big"
+	}
+	if a.Dribble != 0 {
+		variant += "/dribble"
+	}
 	var wg sync.WaitGroup
 	var mu sync.Mutex
 	cuts := 0
@@ -106,7 +113,12 @@ func poolChild(a Args) {
 		go func(c int) {
 			defer wg.Done()
 			rng := rand.New(rand.NewSource(a.Seed*1000 + int64(c)))
-			w := absx.NewWorld(a.Seed*1000+int64(c), absx.SizesSmall(), false)
+			sz := absx.SizesSmall()
+			if a.Sizes == "big" {
+				// values that do not fit one read of the pool's reader, and values that straddle its buffer
+				sz = []int{1, 300, 4096, 12345, 70000}
+			}
+			w := absx.NewWorld(a.Seed*1000+int64(c), sz, false)
 			w.Base = t0.Unix()
 			keys := []string{"k1", "k2", "k3"}
 			for _, k := range keys {
@@ -114,7 +126,7 @@ func poolChild(a Args) {
 			}
 			h := batched.NewHandler(sock, opts)
 			var lines []map[string]interface{}
-			lines = append(lines, map[string]interface{}{"ev": "reset", "cfg": fmt.Sprintf("pool/%s/bs%d/d%d/callers%d", a.Mode, opts.BatchSize, opts.BatchDelayMicros, callers),
+			lines = append(lines, map[string]interface{}{"ev": "reset", "cfg": fmt.Sprintf("pool/%s/bs%d/d%d/callers%d%s", a.Mode, opts.BatchSize, opts.BatchDelayMicros, callers, variant),
 				"proto": "call", "twotier": false, "trace": c, "seed": a.Seed, "retry": map[bool]int{true: 4, false: 0}[a.Mode == "cuts"]})
 			project := func() []interface{} {
 				t := st.LiveSnapshot()
